@@ -290,8 +290,21 @@ void janet_async_in_flight(JanetFiber *fiber) {
 #endif
 }
 
+/* Is some other fiber still parked on this side of the stream? (A fiber that is being canceled is on its way out.) */
+static int janet_stream_side_taken(JanetFiber *waiting, JanetFiber *fiber) {
+    return waiting != NULL && waiting != fiber && waiting->ev_callback != NULL &&
+           !(waiting->gc.flags & JANET_FIBER_EV_FLAG_CANCELED);
+}
+
 void janet_async_start_fiber(JanetFiber *fiber, JanetStream *stream, JanetAsyncMode mode, JanetEVCallback callback, void *state) {
     janet_assert(!fiber->ev_callback, "double async on fiber");
+    /* A stream has room for one reader and one writer. Registering over a fiber that is still waiting
+     * would leave that fiber suspended forever, so refuse instead. */
+    if (((mode & JANET_ASYNC_LISTEN_READ) && janet_stream_side_taken(stream->read_fiber, fiber)) ||
+            ((mode & JANET_ASYNC_LISTEN_WRITE) && janet_stream_side_taken(stream->write_fiber, fiber))) {
+        janet_free(state);
+        janet_panic("another fiber is already waiting on this stream");
+    }
     if (mode & JANET_ASYNC_LISTEN_READ) {
         stream->read_fiber = fiber;
     }
